@@ -20,6 +20,7 @@ class Obligation(object):
         self.unfold_depth = unfold_depth
         self.frame_heuristic = True
         self.abstract_nonlinear = False
+        self.instantiate_int_foralls = False
         self.result = None; self.backend = None; self.solver_s = 0.0; self.model = None; self.reason = None
         self.backends_tried = []
 
@@ -32,6 +33,8 @@ class Obligation(object):
 
     def _formulas(self):
         fs = list(self.hyps) + [z3.Not(self.goal)]
+        if self.instantiate_int_foralls:
+            fs = fs + instantiate_int_foralls(fs)
         # an application occurring identically in the goal and in the hypotheses is framed context: keep it folded
         skip = set()
         if self.frame_heuristic:
@@ -50,6 +53,34 @@ class Obligation(object):
         return dict(name=self.name, function=self.function, where=self.where, kind=self.kind,
                     backend=self.backend, result=self.result, solver_s=round(self.solver_s, 4))
 
+
+def _int_candidates(fs, limit=14):
+    out, seen, stack = {}, set(), list(fs)
+    while stack:
+        e = stack.pop()
+        if e.get_id() in seen: continue
+        seen.add(e.get_id())
+        if z3.is_quantifier(e): continue          # bound variables are not candidates
+        if z3.is_const(e) and e.sort() == z3.IntSort() and e.decl().kind() == z3.Z3_OP_UNINTERPRETED:
+            out[e.get_id()] = e
+        stack.extend(e.children())
+    cands = list(out.values())[:limit]
+    res = [z3.IntVal(0)] + cands + [c - 1 for c in cands] + [c + 1 for c in cands]
+    return res
+
+def instantiate_int_foralls(fs):
+    """explicit instances of universally quantified hypotheses over Int variables at the integer constants of the query
+    (and their neighbours): sound (instances of hypotheses), and makes the query independent of trigger selection"""
+    import itertools
+    cands = _int_candidates(fs)
+    extra = []
+    for f in fs:
+        if not (z3.is_quantifier(f) and f.is_forall()): continue
+        nv = f.num_vars()
+        if nv > 2 or any(f.var_sort(i) != z3.IntSort() for i in range(nv)): continue
+        for combo in itertools.product(cands, repeat=nv):
+            extra.append(z3.substitute_vars(f.body(), *reversed(combo)))
+    return extra
 
 _rmul = z3.Function('rmul', z3.RealSort(), z3.RealSort(), z3.RealSort())
 _rdiv = z3.Function('rdivf', z3.RealSort(), z3.RealSort(), z3.RealSort())
